@@ -405,9 +405,7 @@ var headerParamPool = sync.Pool{
 	},
 }
 
-// getOffer return valid offer for header negotiation.
-// Do not pass header using utils.UnsafeBytes - this can cause a panic due
-// to the use of utils.ToLowerBytes.
+// getOffer return valid offer for header negotiation. The header bytes are only read.
 func getOffer(header []byte, isAccepted func(spec, offer string, specParams headerParams) bool, offers ...string) string {
 	if len(offers) == 0 {
 		return ""
@@ -447,7 +445,9 @@ func getOffer(header []byte, isAccepted func(spec, offer string, specParams head
 						}
 						return false
 					}
-					lowerKey := utils.UnsafeString(utils.ToLowerBytes(key))
+					// the name is folded in a copy: the header bytes belong to the request (a value the
+					// handler took from c.Get("Accept") must not change under it)
+					lowerKey := utils.IfToLower(utils.UnsafeString(key))
 					params[lowerKey] = value
 					return true
 				})
